@@ -123,9 +123,13 @@ abbrev Table (α : Type) := List (List (List (List α)))
 
 /-- The permuted table built by `build_optimized_tables` for an interior-facet integral:
 row `2*rot+ref` holds, for each entity `e`, point `q`, dof `d`, the value
-`φ d (F e (permute ref rot X_q))` (`get_ffcx_table_values` on the permuted points). -/
-def buildTable {P V : Type} (t : FacetType) (perm : Nat → Nat → P → P)
-    (F : Nat → P → P) (phi : Nat → P → V) (nent ndof : Nat) (X : List P) : Table V :=
+`φ d (F e (permute ref rot X_q))` (`get_ffcx_table_values` on the permuted points).
+`P` = points of the reference facet, `C` = points of the reference cell (`F e` = the reference-entity
+map `map_integral_points(·, entity = e)`), `φ d` = basis function `d` of the (component) element.
+Integral types without permutation rows (exterior facets, vertices, interval cells: the plain
+`t = get_ffcx_table_values(points, …)` branches) are the one-row case `t = .point`. -/
+def buildTable {P C V : Type} (t : FacetType) (perm : Nat → Nat → P → P)
+    (F : Nat → P → C) (phi : Nat → C → V) (nent ndof : Nat) (X : List P) : Table V :=
   permRows t.numRot t.numRef (fun ref rot =>
     (List.range nent).map (fun e =>
       X.map (fun x => (List.range ndof).map (fun d => phi d (F e (perm ref rot x))))))
